@@ -179,6 +179,7 @@ def job_gate(res, th, ta, tr):
                   (z3.And(L1 <= z3.If(LG >= gcv, LG, gcv) + TOL, L1 >= z3.If(LG <= gcv, LG, gcv) - TOL), 'gain stays between the previous gain and the target (open = 1 / closed = 0)'),
                   (z3.Implies(z3.And(gcv < LG, cA0 < tH), z3.And(L1 == LG, cA1 == cA0 + 1)), 'closing is held for hold_time samples: gain unchanged, hold counter advances'),
                   (z3.Implies(gcv > LG, cA1 == 0), 'opening resets the hold counter'),
+                  (z3.Implies(gcv == LG, z3.And(L1 == LG, cA1 == cA0)), 'a gain that already sits at its target leaves gain and hold counter untouched'),
                   (z3.And(z3.Implies(z3.And(gcv < LG, cA0 >= tH), zabs(L1 - (WQ(ta) * LG + (1 - WQ(ta)) * gcv)) <= TOL), z3.Implies(gcv > LG, zabs(L1 - (WQ(tr) * LG + (1 - WQ(tr)) * gcv)) <= TOL)),
                    f'the gain moves by the one-pole step of the configured attack ({ta} s) / release ({tr} s) time at fs = {fs}')]
         for claim, desc in claims:
